@@ -688,7 +688,7 @@ def tcp_arms(F):
     for h in heads:
         c = classify_arm(f, h)
         if c.startswith('reply'):
-            fl = sorted(set(v for _, v in last_set_flags(f, h)))
+            fl = sorted(set(v for _, v in last_set_flags(f, h)), key=lambda x: -1 if x is None else x)
             if fl == [SYN | ACK]:
                 c = 'synack'
             elif fl == [FIN | ACK]:
@@ -875,6 +875,9 @@ def walker_resume_problems(F):
     out = []
     ims = sw.calls(r'Smack::inner_match(_shift7)?$')
     if not ims:
+        if not any(re.search(r'Smack::inner_match(_shift7)?$', k_) for k_ in F.fns):
+            # the table walk no longer lives in inner_match*: this rule has lost its subject - no verdict rather than a guess
+            raise AnalysisError('anchor function missing: smack::smack::Smack::inner_match (the table walk has been moved; the resume rule cannot be evaluated)')
         out.append('no inner_match call found')
     for bi, t in ims:
         row = peel(sw.argv(bi, 3), unwraps=False)
@@ -1005,6 +1008,16 @@ def closure_true_paths(F, cid):
             b = _bindings(flags).get(0)
             if b is not None:
                 facts = frozenset(set(facts) | {(b, '!=', 0)})
+            else:
+                # the value itself is handed back (`Variant(a) => a.flag, _ => false`): true means that value is true; the
+                # alternatives of the returned expression are paired with this path conservatively (every one must satisfy
+                # the caller's check)
+                alts_ = [a_ for a_ in palts(g.ret_value(bi), unwraps=False)]
+                nonconst = [a_ for a_ in alts_ if const_val(a_) is None]
+                if nonconst and not any(const_val(a_) not in (None, 0) for a_ in alts_):
+                    for a_ in nonconst:
+                        out.append(frozenset(set(facts) | {(a_, '!=', 0)}))
+                    continue
         out.append(facts)
     return out
 
@@ -1144,6 +1157,22 @@ def modsum(e, w=32, _depth=0):
                 r_ = modsum(rest[0], w, _depth + 1)
                 if r_ is not None and r_[1] == M and len(r_[0]) == 1:
                     return r_
+            # match x.checked_add(1) { Some(v) => v, None => 0 }   /   x.checked_sub(1) .. None => MAX   (also the expanded unwrap_or)
+            for d_, fn_, delta in ((0, r'::checked_add$', 1), (M, r'::checked_sub$', -1)):
+                cs = [a for a in al if const_val(a) == d_]
+                rest = [a for a in al if a not in cs]
+                if len(cs) == 1 and len(rest) == 1:
+                    r0 = rest[0]
+                    while isinstance(r0, tuple) and r0[0] in ('ref', 'deref'):
+                        r0 = r0[1]
+                    if isinstance(r0, tuple) and r0[0] == 'field' and r0[2] == '0' and isinstance(r0[1], tuple) and r0[1][0] == 'variant' and r0[1][2] == 'Some':
+                        inner = r0[1][1]
+                        while isinstance(inner, tuple) and inner[0] in ('ref', 'deref'):
+                            inner = inner[1]
+                        if is_call(inner, fn_) and const_val(inner[2][1]) == 1:
+                            a = modsum(inner[2][0], w, _depth + 1)
+                            if a is not None:
+                                return (a[0], (a[1] + delta) & M)
         return None
     return ((e0,), 0)
 
@@ -1197,7 +1226,14 @@ def dispatch_sound(ctx, prop, what):
     are evaluated on the same facts and each of their instances is an obligation here."""
     from vlib.runner import borrow
     rep = ctx.rep
-    insts = borrow(ctx, 'C10', lambda r_, k_: r_ in ('C10-R1', 'C10-R2', 'C10-R4', 'C10-R5'))
+    try:
+        insts = borrow(ctx, 'C10', lambda r_, k_: r_ in ('C10-R1', 'C10-R2', 'C10-R4', 'C10-R5'))
+    except AnalysisError as e:
+        # the matcher rules cannot be evaluated on this tree (an anchor of theirs is gone): C10 reports that itself; this
+        # property's own clauses are still decided, the presupposition is recorded as not evaluated
+        rd = rep.rule(prop + '-RD', 'dispatch: the structural rules on the signature matcher (C10) could not be evaluated on this tree - see C10', floor=0)
+        rep.not_decided.append('dispatch presupposition (C10-R1/R2/R4/R5) not evaluated: %s' % str(e)[:160])
+        return rd
     rd = rep.rule(prop + '-RD', 'dispatch: %s only through the signature matcher; the structural rules on the signature table, the matcher state and the matcher compiler (C10-R1, R2, R4, R5) hold on this tree' % what, floor=40)
     for rid_, inst in insts:
         rep.check(rd, inst['ok'], '%s:%s' % (rid_, inst['key']), inst['detail'], inst['loc'])
